@@ -136,9 +136,48 @@ LATIN1 = b"# caf\xe9 na\xefve\ndef g(a):\n    return a\n"                 # not 
 MALFORMED = b"def (:\n  }}} {{ ((\nclass\n\tfunction ( {\n'''unterminated\n"
 
 
+LINE_BOUNDARIES = [15, 16, 29, 30, 31, 32, 59, 60, 61, 62]
+_LINE_RUNGS = None
+
+
+def line_rungs():
+    """line counts for files that consist of ONE function: the thresholds' neighbours plus n-1, n, n+1, 2n for every
+    integer literal of the current source tree (new ones always, pinned ones up to 200)"""
+    global _LINE_RUNGS
+    if _LINE_RUNGS is None:
+        try:
+            from gen import srcdict
+            _LINE_RUNGS = sorted(set(LINE_BOUNDARIES) | set(srcdict.rungs(3, 200)) | set(srcdict.novel_rungs(3, 5000)))
+        except Exception:  # noqa: BLE001
+            _LINE_RUNGS = list(LINE_BOUNDARIES)
+    return _LINE_RUNGS
+
+
+def whole_file_function(ext, n, ending):
+    """a file that is one function of exactly n physical lines, code on every line, nothing before or after it;
+    `ending`: what follows the last line ("" = no final newline, "\n", "\n\n", CR LF line ends throughout)"""
+    lang = EXT_LANG.get(ext) or expected_language(ext if not ext.startswith(".") else "x" + ext)
+    if lang == "Python":
+        text = py_function("whole", n)
+    elif lang in ("JavaScript", "TypeScript"):
+        text = brace_function("function whole(a)", n)
+    elif lang in ("C", "C++"):
+        text = brace_function("int whole(int a)", n)
+    else:
+        return source_for(ext, [n])
+    text = text[:-1]
+    if ending == "crlf":
+        return text.replace("\n", "\r\n").encode()
+    return (text + ending).encode()
+
+
 def gen_content(rnd, name):
     ext = os.path.splitext(name)[1]
     r = rnd.random()
+    if r >= 0.88:
+        # line-count boundaries x final-newline variants
+        n = rnd.choice(LINE_BOUNDARIES) if rnd.random() < 0.6 else rnd.choice(line_rungs())
+        return whole_file_function(ext if ext in EXT_LANG else name, n, rnd.choice(["", "", "\n", "\n\n", "crlf"]))
     if r < 0.06:
         return LATIN1
     if r < 0.12:
@@ -212,6 +251,7 @@ def gen_nested_gitignore(rnd, children):
 # interpretation decision (DESIGN.md Appendix A): streams that compare PRINTED paths (check's listing goes through rich, which
 # expands TAB for the terminal) do not use names with control characters (< U+0020); exact comparisons (scan keys) keep them
 DROPPED = {"names_with_control_characters": 0}
+LINE_BREAKERS = "\x0b\x0c\x1c\x1d\x1e\x85\u2028\u2029\r"      # where str.splitlines() splits besides LF
 
 
 def gen_children(rnd, depth, max_depth, printed_paths=False):
@@ -571,6 +611,13 @@ def gen_patterns(rnd, tree=None):
     # pattern `[..]` would be a character class
     def plain(p):
         core = p[2:] if p.startswith("*.") else p[:-2] if p.endswith("/*") else p
+        if any(ch in p for ch in LINE_BREAKERS):
+            # REPORTED (round 6, H5), not yet a registered finding: Scanner._read_gitignore splits the root .gitignore with
+            # str.splitlines(), i.e. also at U+2028 / U+2029 / U+0085 / VT / FF / FS / GS / RS, where git splits at LF only:
+            # the line `/<U+2028>ls.js` becomes the two patterns `/` and `ls.js` and the file <U+2028>ls.js is scanned
+            # although git ignores it. Until that is decided, pattern lines with such characters are not generated.
+            DROPPED["patterns_with_line_boundary_characters"] = DROPPED.get("patterns_with_line_boundary_characters", 0) + 1
+            return False
         return not any(ch in core for ch in "[]*?!#\\") and p.strip() == p
     return [p for p in out if plain(p)]
 
@@ -828,15 +875,49 @@ def run_check(args):
 
 # ------------------------------------------------------------------ temp dirs
 
+ENV_NAMES = [".ci", ".jenkins", ".local", ".cache", "ws", "workspace", "checkout", "job-7", "src", "build", "tests", "node_modules", "a b"]
+
+
+def gen_env(rnd, tree=None):
+    """the surroundings of the code base root, which by the properties never matter: the directories ABOVE the root
+    (names from the same classes as the names below it: hidden `.ci` `.jenkins` `.local`, built-in-excluded `build`
+    `tests` `node_modules`, plain), one of them possibly the top of a git checkout / worktree / submodule (`.git`
+    directory or file) with a .gitignore whose lines are drawn from the names in the tree (so that they would bite).
+    -> {"above": [names, outermost first], "files": {path relative to <tmp>/w: text}}"""
+    above = [rnd.choice(ENV_NAMES) for _ in range(rnd.choice([1, 1, 2, 3]))]
+    if rnd.random() < 0.5 and not any(a.startswith(".") for a in above):
+        above[rnd.randrange(len(above))] = rnd.choice([n for n in ENV_NAMES if n.startswith(".")])
+    files = {}
+    if rnd.random() < 0.7:
+        level = rnd.randrange(len(above) + 1)
+        pre = "/".join(above[:level] + [""]) if level else ""
+        if rnd.random() < 0.7:
+            files[pre + ".git/HEAD"] = "ref: refs/heads/main\n"
+        else:
+            files[pre + ".git"] = "gitdir: /nowhere/.git/worktrees/x\n"
+        if rnd.random() < 0.85:
+            lines = gen_patterns(rnd, tree) if tree is not None else []
+            lines += [rnd.choice(["*.py", "*.js", "*.c", "src/", "lib/", "root/", "*"])]
+            files[pre + ".gitignore"] = "\n".join(lines) + "\n"
+    return {"above": above, "files": files}
+
+
 class TempTree:
     """a materialised tree under a fresh temp dir; `root` is <tmp>/w/root (so that `..` forms
-    and relative forms have somewhere to start from)"""
+    and relative forms have somewhere to start from) or, with an environment `env` (gen_env),
+    <tmp>/w/<above...>/root; `parent` is the directory that holds `root`"""
 
-    def __init__(self, tree):
+    def __init__(self, tree, env=None):
         self.tmp = os.path.realpath(tempfile.mkdtemp(prefix="clsel_"))
         self.work = os.path.join(self.tmp, "w")
-        self.root = os.path.join(self.work, "root")
+        self.parent = os.path.join(self.work, *((env or {}).get("above") or []))
+        self.root = os.path.join(self.parent, "root")
         materialize(tree, self.root)
+        for rel, text in sorted(((env or {}).get("files") or {}).items()):
+            q = os.path.join(self.work, *rel.split("/"))
+            os.makedirs(os.path.dirname(q), exist_ok=True)
+            with open(q, "w") as f:
+                f.write(text)
         self._cwd = os.getcwd()
 
     def chdir(self, p):
